@@ -59,18 +59,31 @@ func c02Records() []refdns.RR {
 }
 
 type c02Case struct {
-	kind      string
-	desc      string
-	m         *refdns.Msg
-	inC       bool   // encode input with compression pointers
-	pre       []byte // if set: bytes fed to the decoder (and normally rejected) before the message under test
-	mayReject bool   // the decoder may legitimately reject this message; only if it accepts must the content survive
+	kind       string
+	desc       string
+	m          *refdns.Msg
+	inC        bool        // encode input with compression pointers
+	pre        []byte      // if set: bytes fed to the decoder (and normally rejected) before the message under test
+	mayReject  bool        // the decoder may legitimately reject this message; only if it accepts must the content survive
+	prePack    *refdns.Msg // if set: this message is decoded and packed into a buffer of prePackBuf octets first (the Pack fails half-way)
+	prePackBuf int
 }
 
 // checkOne runs the oracle on one abstract message; returns an observation string.
 func c02Check(rep *report.R, c c02Case, replay any) {
 	if c.pre != nil {
 		if m, err := vUnpack(c.pre); err == nil {
+			ReleaseMsg(m)
+		}
+	}
+	if c.prePack != nil {
+		if m, err := vUnpack(c.prePack.Encode(false)); err == nil {
+			for _, comp := range []bool{true, false} {
+				func() {
+					defer func() { recover() }()
+					m.Pack(make([]byte, c.prePackBuf), comp, 0)
+				}()
+			}
 			ReleaseMsg(m)
 		}
 	}
@@ -354,6 +367,45 @@ func c02Enumerate(names []refdns.Name, recs []refdns.RR, maxRec, slots int, emit
 					emit(c02Case{kind: "after-malformed", desc: fmt.Sprintf("after rejecting variant %d of seed %d (compressed=%v): %x", bi, si, comp, bad), m: victim, pre: bad})
 				}
 			}
+		}
+	}
+	// (after-failed-pack) a Pack that fails half-way (buffer too small at every possible length) must not disturb later Packs:
+	// the victim shares name suffixes with the failed message at other offsets
+	{
+		N := refdns.N
+		victims := []*refdns.Msg{
+			{ID: 3, Bits: refdns.BitQR, Q: []refdns.Q{{Name: N("www", "example", "org"), Type: 1, Class: 1}},
+				An: []refdns.RR{refdns.NameRR(refdns.TypeCNAME, N("www", "example", "org"), 5, N("cdn", "example", "net")), refdns.A(N("cdn", "example", "net"), 5, 1, 2, 3, 4), refdns.MX(N("example", "org"), 5, 1, N("mail", "example", "org"))}},
+			{ID: 4, Bits: refdns.BitQR, Q: []refdns.Q{{Name: N("a", "b", "poison", "test"), Type: 1, Class: 1}}, An: []refdns.RR{refdns.A(N("a", "b", "poison", "test"), 1, 1, 2, 3, 4)}},
+		}
+		failed := []*refdns.Msg{
+			{ID: 1, Bits: refdns.BitQR, Q: []refdns.Q{{Name: N("x", "example", "org"), Type: 1, Class: 1}}, An: []refdns.RR{refdns.MX(N("y", "z", "example", "net"), 1, 1, N("mail", "example", "org")), refdns.A(N("poison", "test"), 1, 1, 2, 3, 4)}},
+			{ID: 2, Bits: refdns.BitQR, Q: []refdns.Q{{Name: N("poison", "test"), Type: 1, Class: 1}}, An: []refdns.RR{refdns.SOA(N("b", "poison", "test"), 1, N("ns", "example", "net"), N("root", "example", "org"), 1)}},
+		}
+		for fi, f := range failed {
+			for size := 0; size < f.Len(); size++ {
+				for vi, v := range victims {
+					emit(c02Case{kind: "after-failed-pack", desc: fmt.Sprintf("victim %d after packing message %d into a %d octet buffer (needs %d)", vi, fi, size, f.Len()), m: v, prePack: f, prePackBuf: size})
+				}
+			}
+		}
+	}
+	// (large) messages whose uncompressed encoding is around and far beyond 65535 octets while the received (compressed) form is
+	// small: "no size limit" means no limit, nothing is dropped
+	{
+		owner := refdns.N(strings.Repeat("o", 50), "big", "example", "test")
+		ol := 1
+		for _, l := range owner {
+			ol += 1 + len(l)
+		}
+		per := ol + 14 // one A record, uncompressed
+		base := 12 + ol + 4
+		for _, n := range []int{(65535 - base) / per, (65535-base)/per + 1, (65535-base)/per + 2, 2 * (65535 - base) / per, 4500} {
+			m := &refdns.Msg{ID: 9, Bits: refdns.BitQR, Q: []refdns.Q{{Name: owner, Type: 1, Class: 1}}}
+			for i := 0; i < n; i++ {
+				m.An = append(m.An, refdns.A(owner, 60, byte(i>>8), byte(i), 3, 4))
+			}
+			emit(c02Case{kind: "large", desc: fmt.Sprintf("%d A records, uncompressed length %d", n, m.Len()), m: m, inC: true})
 		}
 	}
 	// (names)
